@@ -1097,6 +1097,12 @@ func c12IDs(w *core.W, j int) {
 	}
 	// datagrams: 0..5 stale/duplicate/foreign replies before the real one
 	n := r.IntN(6)
+	long := j%10 == 7
+	if long {
+		// a burst: far more replies with other IDs than any plausible bound on "a few stale answers"
+		n = []int{17, 18, 40, 100, 300}[(j/10)%5]
+		w.Count("datagram_long_bursts_of_foreign_replies", 1)
+	}
 	var script [][]byte
 	nDamaged := 0
 	for i := 0; i < n; i++ {
@@ -1124,8 +1130,11 @@ func c12IDs(w *core.W, j int) {
 		script = append(script, mk(q.Id, "real"), mk(q.Id, "late-duplicate"))
 	}
 	sc := netsim.NewScripted(script)
-	if n >= 2 {
+	if n >= 2 && !long {
 		sc.ReadGap = 4 * time.Millisecond // time passes while foreign replies trickle in
+	}
+	if long && withReal {
+		c = &dns.Client{Timeout: time.Minute} // the matching reply ends the exchange; the deadline is never waited for
 	}
 	w.Eval(1)
 	w.Count("datagram_scripts", 1)
